@@ -38,7 +38,7 @@ LOG (decisions)
     fail to deserialize; fixed in /repo by 3a09e57 = proposed_fixes/C17-duplicate-initializer-last-wins.diff;
     Model.deser_inits / PUnfold.pu_inits follow the fix).
 * Tie: correspondence on every run (quick 500 cases + corpus, thorough 12000): mutation stream over generated
-  valid protos (34 field-level mutation kinds, 1-5 per case: rename to existing/empty/new names, drop, duplicate,
+  valid protos (35 field-level mutation kinds, 1-5 per case: rename to existing/empty/new names, drop, duplicate,
   shuffle/reverse/cyclic nodes, unknown enum values in elem_type/data_type/attribute type, inconsistent tensor
   fields, absurd external-data entries, invalid UTF-8 in bytes fields, cleared/map/sequence-without-elem types,
   repeated outputs, outputs named like inputs/initializers, nodes moved into subgraphs, scope shadowing,
@@ -97,7 +97,13 @@ LOG (decisions)
   ir_version_low = ir_version 0/absent + function value_info -> fixpoint oracle), C17-r3m2 (warning formats the Node,
   whose __str__ reads a small EXTERNAL constant input: mutation dangling_with_external + logging at its default
   level + existing external files -> file-access oracle), C17-r3m3 (function attribute defaults deserialized in the
-  function's value scope: mutation fn_attr_dup_graph -> oracle I1x).
+  function's value scope: mutation fn_attr_dup_graph -> oracle I1x), C17-r4m2 (dim_param constant expressions folded
+  while loading: value infos / mutation dim_param_expr carry '2*4', '1+1', '2**3' ... and the leaf oracle
+  oracle_leaf_dims compares every dimension the library reads with an independent reading of the proto).
+* KNOWN finding experimental-function-value-info-name-collision (clean tree, ir_version < 10): a main-graph value
+  named '<domain>::<function>/<value>' is read back also as that function value's type; the next serialization
+  writes a second entry, so the fixpoint fails; outside the structural model (IR<10 function value info is
+  unmodelled); attribution by repair = rename such values.
 """
 
 from __future__ import annotations
